@@ -14,6 +14,8 @@ Decided clauses:
         between; inc / dec and logical instructions do not qualify.
   R14.5 carry-chain continuity: in the byte loops of sodium_increment / add / sub the loop-carried carry
         is recomputed from its previous value (data dependence of the next carry on the incoming one).
+  R14.7 limb pairing in the same fast paths: every `op %reg, K(out)` uses a register loaded by `mov K(in), %reg` from the other
+        operand at the same offset and width, each loaded limb is consumed once, and the limbs are contiguous from offset 0.
 NOT decided: the -1/0/1 value of sodium_compare, the values of the carries of increment/add/sub (and
 the inline-asm fast paths).
 """
@@ -257,3 +259,52 @@ def run(ctx, chk):
                        (" (inc / dec leave CF unchanged)" if any(m.startswith(("inc", "dec")) for m in mns[:k]) else ""),
                        key="R14.6 %s" % f.sname)
     chk.floor("R14.6", "adc / sbb instructions in the inline assembly of sodium/utils.c", ncons, 0 if chk.relaxed else 10)
+    # ---- R14.7 limb pairing in the inline-assembly fast paths of sodium_add / sodium_sub ---------------------------------------
+    # `op %reg, K(out)` combines limb K of the first operand with a register: that register must have been loaded from limb K of
+    # the *second* operand (`mov K(in), %reg`), every loaded limb is consumed exactly once, and the limbs cover [0, len) of the
+    # path's length fact without gaps. A register loaded from the wrong buffer or offset gives a + a or mixes limbs.
+    import re
+    npair = 0
+    for name in ("sodium_add", "sodium_sub"):
+        f = prog.fn(name)
+        if f is None:
+            continue
+        for i, ins in enumerate(f.insts):
+            cal = ins.get("callee")
+            if ins["op"] != "call" or not cal or cal[0] != "asm" or len(cal) < 3:
+                continue
+            cons = cal[2].split(",")
+            nout = sum(1 for c in cons if c.startswith("="))
+            inputs = [c for c in cons if not c.startswith(("=", "~"))]
+            opnd = {}
+            for k, o in enumerate(ins.get("ops", [])):
+                if o[0] == "a":
+                    opnd["$%d" % (nout + k)] = f.params[o[1]]["name"]
+            OUT, IN = f.params[0]["name"], f.params[1]["name"]
+            regs, used, limbs, bad = {}, set(), [], []
+            width = {"q": 8, "l": 4, "w": 2, "b": 1}
+            for line in [l.strip() for l in cal[1].replace(";", "\n").split("\n") if l.strip()]:
+                m = re.match(r"(\w+)\s+(\d*)\((\$\d+)\)\s*,\s*(\$\d+)$", line)
+                if m and m.group(1).startswith("mov"):
+                    regs[m.group(4)] = (opnd.get(m.group(3)), int(m.group(2) or 0), width.get(m.group(1)[-1], 0))
+                    continue
+                m = re.match(r"(\w+)\s+(\$\d+)\s*,\s*(\d*)\((\$\d+)\)$", line)
+                if m and m.group(1)[:3] in ("add", "adc", "sub", "sbb"):
+                    dst, k = opnd.get(m.group(4)), int(m.group(3) or 0)
+                    src = regs.get(m.group(2))
+                    w = width.get(m.group(1)[-1], 0)
+                    npair += 1
+                    ok = dst == OUT and src is not None and src == (IN, k, w) and m.group(2) not in used
+                    used.add(m.group(2))
+                    limbs.append((k, w))
+                    if not ok:
+                        bad.append("`%s` combines %s[%d..%d) with a register holding %s" %
+                                   (line, dst, k, k + w, "nothing loaded" if src is None else "%s[%d..%d)" % (src[0], src[1], src[1] + src[2])))
+            if not limbs:
+                continue
+            limbs.sort()
+            contiguous = limbs[0][0] == 0 and all(limbs[j][0] + limbs[j][1] == limbs[j + 1][0] for j in range(len(limbs) - 1))
+            chk.ob("R14.7", f, "assembly fast path at %s: limb K of %s is combined with limb K of %s, limbs contiguous from 0" % (f.loc(i), OUT, IN),
+                   not bad and contiguous, loc=f.loc(i), detail="; ".join(bad) or ("" if contiguous else "limbs %s leave a gap" % limbs),
+                   key="R14.7 %s asm-%d" % (name, limbs[-1][0] + limbs[-1][1]))
+    chk.floor("R14.7", "limb operations in the assembly fast paths of sodium_add / sodium_sub", npair, 0 if chk.relaxed else 10)
